@@ -4522,8 +4522,8 @@ XPath::predicates(
                     m_expression.getNumberLiteral(m_expression.getOpCodeMapValue(predOpPos + 2));
 
                 // If the index is out of range, or not an integer, just clear subQueryResults...
-                if (theIndex <= 0.0 ||
-                    NodeRefListBase::size_type(theIndex) > theLength ||
+                if (!(theIndex > 0.0) ||
+                    theIndex > theLength ||
                     double(NodeRefListBase::size_type(theIndex)) != theIndex)
                 {
                     subQueryResults.clear();
